@@ -6,5 +6,7 @@ CONSTANTS Base = 4
 INVARIANT ApiIsRule
 INVARIANT FfiIsRule
 INVARIANT PathsAgree
+INVARIANT ApiStructIsRule
+INVARIANT FfiStructIsRule
 INVARIANT DigitsSound
 CHECK_DEADLOCK FALSE
